@@ -35,6 +35,8 @@ MENU["settimeout"] = ["oserror"]  # also a failure while the connection is being
 
 
 def alphabet(tier):
+    # calls refused for an illegal key never reach the network, but they do pass through the pool
+    refused = [ops.Op("get", "bad key"), ops.Op("set_many", {"a": b"1", "bad key": b"2"}, noreply=False)]
     alpha = ops.alphabet(noreplies=(None, False))
     if tier == "quick":
         want = {"get", "set", "get_many", "quit", "set_many", "delete_many", "incr", "gets", "stats", "version"}
@@ -45,8 +47,8 @@ def alphabet(tier):
             if o.name in want and key not in seen:
                 seen.add(key)
                 out.append(o)
-        return out
-    return [o for o in alpha if o.name not in ("cache_memlimit",)]
+        return out + refused
+    return [o for o in alpha if o.name not in ("cache_memlimit",)] + refused
 
 
 def configs():
